@@ -100,6 +100,7 @@ def prog(env, case):
             pep.list_of_performance_metrics = saved
     else:
         apply_edit(env, m, edit)
+    n_sym_before = env.eng.nvars if env.sym else 0
     t2, e2 = pipeline.safe_solve(env, pep, tag + ":solve2", wrapper=b2, **kw)
     if e2:
         return e2
@@ -107,6 +108,34 @@ def prog(env, case):
         return "no value"
     if not env.sym:
         env.tol = 5e-4
+    # ---- (a0) the leaves themselves carry the latest solution -------------------------------------------------
+    for k, e in enumerate(Expression.list_of_leaf_expressions):
+        env.check_eq(e._value, pep.F_value[k], "a leaf expression does not carry the value of the latest solve",
+                     signature=tag + ":stale:leaf-expression")
+    if env.sym:
+        import re
+        import z3 as _z3
+        from vf.engine import lift as _lift
+        stale = False
+        for p_ in Point.list_of_leaf_points:
+            for v in p_._value:
+                lv = _lift(v)
+                if lv is None:
+                    continue
+                for name in re.findall(r"o\.R!(\d+)", lv.sexpr()):
+                    if int(name) <= n_sym_before:
+                        stale = True
+        env.check(not stale, "a leaf point still carries coordinates factorised from an earlier solve's Gram matrix",
+                  signature=tag + ":stale:leaf-point")
+    else:
+        import numpy as np
+        Gn = np.asarray(pep.G_value, dtype=float)
+        w_, V_ = np.linalg.eigh(Gn)
+        Gp = (V_ * np.maximum(w_, 0)) @ V_.T
+        vals = [np.asarray(p_._value, dtype=float) for p_ in Point.list_of_leaf_points]
+        bad = max(abs(float(np.dot(vals[i], vals[j])) - Gp[i, j]) for i in range(len(vals)) for j in range(len(vals)))
+        env.check(bad <= 1e-6 * (1 + abs(Gp).max()), "leaf points do not reproduce the latest Gram matrix (max deviation %g)"
+                  % bad, signature=tag + ":stale:leaf-point")
     # ---- (a) held objects evaluate to the latest solution ------------------------------------------------------
     P = {p: list(p._value) for p in Point.list_of_leaf_points}
     F = {e: e._value for e in Expression.list_of_leaf_expressions}
